@@ -232,7 +232,7 @@ fn ref_shards(func: &str, n: usize, keys: &[i64]) -> Result<Vec<usize>, String> 
 
 fn c06_wire(seed: u64, rep: &Report) -> Result<(), String> {
     let mut rng = Rng::new(seed);
-    let n = *rng.pick(&[2usize, 3, 5]);
+    let n = *rng.pick(&[2usize, 3, 5, 12, 16]); // 12, 16: numeric order of shard ids differs from their textual order
     let func = if rng.chance(1, 4) { "sha1" } else { "pg_bigint_hash" };
     let mut cell = Cell::new();
     let mut pool = PoolCfg::new("sh");
@@ -351,7 +351,7 @@ fn c06_wire(seed: u64, rep: &Report) -> Result<(), String> {
 
 pub fn run_c06(tier: &str) -> i32 {
     let rep = Report::new("C06", tier, "exploration",
-        "lib leg: Sharder::shard vs an independent transcription of hashint8extended/hash_combine64/partition modulus (validated on the repo's PostgreSQL-derived vectors) over 2^24 (quick) / all 2^32 (thorough, exhaustive) values of the 32-bit word the hash consumes x 10 shard counts + random 64-bit keys, and agreement of every key-delivery path; wire leg: 2/3/5 single-server shards, statements delivered by SET SHARDING KEY / comment regex / literal / INSERT VALUES / Bind text / Bind binary must land on the mock of the reference shard, selection sticks, out-of-range SET SHARD refused; distinct = lib keys + wire (path,shards,function,key)");
+        "lib leg: Sharder::shard vs an independent transcription of hashint8extended/hash_combine64/partition modulus (validated on the repo's PostgreSQL-derived vectors) over 2^24 (quick) / all 2^32 (thorough, exhaustive) values of the 32-bit word the hash consumes x 10 shard counts + random 64-bit keys, and agreement of every key-delivery path; wire leg: 2/3/5/12/16 single-server shards, statements delivered by SET SHARDING KEY / comment regex / literal / INSERT VALUES / Bind text / Bind binary must land on the mock of the reference shard, selection sticks, out-of-range SET SHARD refused; distinct = lib keys + wire (path,shards,function,key)");
     let lib_ok = libleg::run("C06", &rep, libleg::identity);
     if lib_ok && rep.get("lib:exhaustive_u32") >= 1 {
         rep.extra("exhaustive", json!(true));
